@@ -334,7 +334,7 @@ func runC12Case(c *c12Case) (outcome, *c12State) {
 
 const c12Rule = "rapid state machine: token stream of 0-30 tokens over 10 types (positive, negative, 64 apart; +EOF), any elision subset (optionally incl. EOF), " +
 	"operation sequence over Peek/Next/RawPeek/PeekAny/FastForward/Range/MakeCheckpoint/LoadCheckpoint stepped " +
-	"in lockstep with an explicit model (token slice + raw cursor), with a drawn subset of observers (possibly none) called after each step; non-trivial = the sequence contains a " +
+	"in lockstep with an explicit model (token slice + raw cursor), PeekAny predicates that may look at the lexer they are called from or panic (recovered by the caller), with a drawn subset of observers (possibly none) called after each step; non-trivial = the sequence contains a " +
 	"FastForward that skips an elided token, a checkpoint restore that moves the cursor, and a call at EOF; " +
 	"distinct by SHA-256 of (tokens, elision set, operations)"
 
